@@ -47,9 +47,9 @@ Collect == /\ inflight /\ inflight' = FALSE
 \* a call that is being launched (already registered as pending, not yet written) at the moment the reader
 \* detects the loss of the connection; the server stays reachable.  The call must complete -- with the reply
 \* after a redial, or with a connection error --, and the session must recover (or end, without redial).
-CallTorn == /\ ~inflight /\ ~ended /\ conn = "ok" /\ up /\ hok /\ quiet /\ budget # 3
-            /\ IF Redials THEN Rec("calltorn", "any") /\ conn' = "lost" /\ UNCHANGED ended
-                          ELSE Rec("calltorn", "connerr") /\ ended' = TRUE /\ conn' = "lost"
+CallTorn == /\ ~inflight /\ ~ended /\ conn = "ok" /\ up /\ quiet /\ budget \notin {3, 99}
+            /\ IF Redials /\ Reach THEN Rec("calltorn", "any") /\ conn' = "lost" /\ UNCHANGED ended
+                                    ELSE Rec("calltorn", "connerr") /\ ended' = TRUE /\ conn' = "lost"   \* no redial can succeed: the round fails, the session ends
             /\ quiet' = FALSE /\ UNCHANGED <<budget, up, inflight, uid, hok>>
 Cut  == /\ ~ended /\ conn = "ok" /\ conn' = "lost" /\ quiet' = FALSE /\ Rec("cut", "-") /\ UNCHANGED <<budget, up, ended, inflight, uid, hok>>
 Down == /\ up /\ up' = FALSE /\ conn' = (IF ended THEN conn ELSE "lost") /\ quiet' = FALSE /\ Rec("down", "-") /\ UNCHANGED <<budget, ended, inflight, uid, hok>>
